@@ -10,8 +10,8 @@ CONSTANTS USlots = {1, 2}
   Pre <- PreSmall
   MemPool <- MemSmall
   Toks <- TokAll
-  MaxTok = 6
-  MaxMut = 3
+  MaxTok = 5
+  MaxMut = 2
   GenDepth = 0
 INVARIANTS TypeOK GrammarAgrees MemNumbers
 PROPERTIES RoundTrip AppendOnly WriteThenRead ZeroThenZeroed Pure SameMachine
